@@ -11,6 +11,8 @@ pub struct AttrC;
 #[sv::error(Echo)]
 #[sv::msg_attr(exec, derive(PartialOrd))]
 #[sv::msg_attr(instantiate, derive(PartialOrd))]
+// a second attribute for exec, separated from the first by another kind's line
+#[sv::msg_attr(exec, serde(deny_unknown_fields))]
 impl AttrC {
     pub const fn new() -> Self {
         AttrC
@@ -26,6 +28,12 @@ impl AttrC {
     }
     #[sv::msg(exec)]
     fn with_default(&self, ctx: ExecCtx, must: u64, #[serde(default)] may: u64) -> Result<Response, Echo> {
+        Err(Echo::Std)
+    }
+    // forwarded attribute written ABOVE the sv::msg line
+    #[sv::attr(serde(rename = "above_msg_line"))]
+    #[sv::msg(exec)]
+    fn attr_first(&self, ctx: ExecCtx, a: u64) -> Result<Response, Echo> {
         Err(Echo::Std)
     }
     #[sv::msg(query)]
@@ -80,6 +88,20 @@ pub mod proofs {
             Ok(sv::ExecMsg::OriginalName { a }) => assert!(a == x),
             _ => assert!(false),
         }
+        // sv::attr written above the sv::msg line is forwarded just the same
+        match sv::ExecMsg::deserialize(script::ED { key: "above_msg_line", fields: &a }) {
+            Ok(sv::ExecMsg::AttrFirst { a }) => assert!(a == x),
+            _ => assert!(false),
+        }
+        assert!(sv::ExecMsg::deserialize(script::ED { key: "attr_first", fields: &a }).is_err());
+        // the second, non-adjacent sv::msg_attr(exec, ..) line is forwarded too: unknown fields are denied on
+        // ExecMsg and on no other kind
+        let surplus: [(&str, script::Sv); 2] = [("a", script::Sv::U(x)), ("zzz", script::Sv::U(y))];
+        assert!(sv::ExecMsg::deserialize(script::ED { key: "renamed_on_wire", fields: &surplus }).is_err());
+        match sv::SudoMsg::deserialize(script::ED { key: "plain_sudo", fields: &surplus }) {
+            Ok(sv::SudoMsg::PlainSudo { a }) => assert!(a == x),
+            _ => assert!(false),
+        }
         // and a field of a message of another kind is NOT optional
         let none: [(&str, script::Sv); 0] = [];
         assert!(sv::SudoMsg::deserialize(script::ED { key: "plain_sudo", fields: &none }).is_err());
@@ -101,5 +123,8 @@ pub mod proofs {
         const _: () = assert!(!Probe::<sv::SudoMsg>::HAS);
         const _: () = assert!(!Probe::<sv::ContractExecMsg>::HAS);
         // T-END fx_attr.T.msg_attr_lands_on_designated_kinds_only
+        // T-BEGIN fx_attr.T.accepted
+        let _ = AttrC::new();
+        // T-END fx_attr.T.accepted
     }
 }
